@@ -185,6 +185,11 @@ def run(ctx, rep):
     check_clear_paths(fx, rep)
     check_clear_handlers(fx, rep)
     check_no_commit(fx, rep)
+    # the amount validate_initial_tx_gas compares the gas limit with: intrinsic gas per fork, the
+    # calldata token count and the EIP-7623 floor (C14's formula rules)
+    import engine
+    import c14
+    c14.run_linear(ctx, engine.SubReport(rep, 'C14'))
     rep.assume('cfg switches (disable_block_gas_limit, disable_base_fee, disable_eip3607, disable_balance_check) are test/dev features outside the specification; they appear as explicit literals of the rule they disable')
 
 
